@@ -30,6 +30,10 @@ pub enum BCall {
     Catchup(u8),
     Desync(u8), // 0 off, 1 => On{0}, n => On{n-1}
     Sparse(bool),
+    /// with_disconnect_timeout(100 ms x n)
+    Timeout(u8),
+    /// with_disconnect_notify_delay(100 ms x n); no relation to the timeout is documented or checked
+    NotifyDelay(u8),
 }
 
 #[derive(Clone, Debug, Serialize, Deserialize, PartialEq, Eq, Hash)]
@@ -82,6 +86,12 @@ pub fn domain() -> Vec<BCall> {
     }
     v.push(BCall::Sparse(true));
     v.push(BCall::Sparse(false));
+    for t in [0u8, 3, 30] {
+        v.push(BCall::Timeout(t));
+    }
+    for t in [0u8, 3, 30] {
+        v.push(BCall::NotifyDelay(t));
+    }
     v
 }
 
@@ -182,6 +192,8 @@ impl Model {
                 self.sparse = *s;
                 true
             }
+            // accepted unconditionally (any pair of values)
+            BCall::Timeout(_) | BCall::NotifyDelay(_) => true,
         }
     }
     fn start_ok(&self, start: u8) -> bool {
@@ -207,6 +219,8 @@ fn real_apply(b: SessionBuilder<TC>, c: &BCall) -> Result<SessionBuilder<TC>, Gg
         BCall::Catchup(c) => b.with_catchup_speed(*c as usize)?,
         BCall::Desync(d) => b.with_desync_detection_mode(if *d == 0 { DesyncDetection::Off } else { DesyncDetection::On { interval: *d as u32 - 1 } }),
         BCall::Sparse(s) => b.with_sparse_saving_mode(*s),
+        BCall::Timeout(t) => b.with_disconnect_timeout(Duration::from_millis(*t as u64 * 100)),
+        BCall::NotifyDelay(t) => b.with_disconnect_notify_delay(Duration::from_millis(*t as u64 * 100)),
     })
 }
 
@@ -298,6 +312,27 @@ fn drive_p2p(main: P2PSession<TC>, m: &Model, net: &Net, seed: u64, ticks: u32) 
         if let Some((c, msg)) = g.errors.first() {
             return Err(format!("request contract broken on an accepted configuration: {c}: {msg}"));
         }
+    }
+    // a hitch: everybody else falls silent and the main session is not polled for 3.5 s (longer than any
+    // configured notify delay or timeout, in either order), then polled and advanced again: whatever the timeouts,
+    // nothing may panic or return an unexpected error
+    ggrs::verif_hooks::clock::advance_millis(3500);
+    for _t in 0..40 {
+        let (_, s, locals) = &mut sessions[0];
+        s.poll_remote_clients();
+        let f = s.current_frame();
+        for h in locals.iter() {
+            let _ = s.add_local_input(*h, I1::from_v(true_input(seed, *h, f, 4)));
+        }
+        match s.advance_frame() {
+            Ok(reqs) => {
+                games[0].handle(reqs, |x: I1| x.to_v());
+            }
+            Err(GgrsError::NotSynchronized) | Err(GgrsError::InvalidRequest { .. }) => {}
+            Err(e) => return Err(format!("advance_frame after a 3.5 s hitch returned {e:?}")),
+        }
+        for _ in s.events() {}
+        ggrs::verif_hooks::clock::advance_millis(fm);
     }
     Ok((advanced, all_running))
 }
@@ -466,6 +501,8 @@ fn kind_of(c: &BCall) -> &'static str {
         BCall::Catchup(_) => "with_catchup_speed",
         BCall::Desync(_) => "with_desync_detection_mode",
         BCall::Sparse(_) => "with_sparse_saving_mode",
+        BCall::Timeout(_) => "with_disconnect_timeout",
+        BCall::NotifyDelay(_) => "with_disconnect_notify_delay",
     }
 }
 
@@ -631,7 +668,7 @@ pub fn run_prop(ctx: &Ctx) -> PropReport {
     let d = dom.len() as u64;
     let seed = ctx.seed;
     let maxlen = ctx.tier.pick(3u32, 4u32);
-    let rule = "builder call sequences over small domains (num_players 0..=4, handles 0..=5, Local/Remote(a|b)/Spectator(a|b|c), fps {0,1,60}, window {0,1,8,16}, delay {0,2,16}, check distance {0,2,8,16}, max_frames_behind {0,1,59,60}, catchup {0,1,70}, desync {Off,On 0,On 3}, sparse) followed by start_p2p / start_synctest / start_spectator; every call's Ok/InvalidRequest must equal the reference predicate written from the rustdoc; every accepted configuration is run (P2P: together with complementary sessions for every other address, 220 ticks - beyond the 128-slot input ring; SyncTest: 40 frames with the strict game; spectator: polled/advanced alone) without panic or unexpected error";
+    let rule = "builder call sequences over small domains (num_players 0..=4, handles 0..=5, Local/Remote(a|b)/Spectator(a|b|c), fps {0,1,60}, window {0,1,8,16}, delay {0,2,16}, check distance {0,2,8,16}, max_frames_behind {0,1,59,60}, catchup {0,1,70}, desync {Off,On 0,On 3}, sparse, disconnect timeout {0,0.3,3 s}, notify delay {0,0.3,3 s}) followed by start_p2p / start_synctest / start_spectator; every call's Ok/InvalidRequest must equal the reference predicate written from the rustdoc; every accepted configuration is run (P2P: together with complementary sessions for every other address, 220 ticks - beyond the 128-slot input ring - then a 3.5 s hitch during which everybody else falls silent, and 40 more calls; SyncTest: 40 frames with the strict game; spectator: polled/advanced alone) without panic or unexpected error";
     for len in 0..=maxlen {
         let n = 3 * d.pow(len);
         let dom2 = dom.clone();
